@@ -44,7 +44,7 @@ def build_cases(tier):
             n = span / FREQ_S[freq]
             if n < 1 or n > 300:
                 continue
-            for tz in (None, "UTC", "CET"):
+            for tz in (None, "UTC", "CET", "America/New_York"):
                 for mtu in ("h", "d", "min"):
                     if tier == "quick" and mtu != "h" and (hash((s, e, freq, tz)) % 4):
                         continue
